@@ -10,7 +10,7 @@ import sys
 
 V = '/verif'
 EXTRA = {'C12-B': ['C11'], 'C14-B': ['C12'], 'C13-B': ['C15'], 'C16-A': ['C15'], 'C15-A': ['C13'], 'C01-A': ['C02', 'C03'], 'C01-B': ['C02'], 'C07-B': ['C08'],
-         'C10-A': ['C03'], 'C10-B': ['C04'], 'C09-A': ['C05'], 'C04-B': ['C15'], 'C19-B': ['C08'], 'HIST-D03': ['C14'], 'HIST-D01': ['C06'], 'HIST-D09b': ['C20'], 'C20-B': ['C15', 'C18'], 'C01-E': ['C15', 'C14'], 'C06-F': ['C15'], 'C07-F': ['C14'], 'C09-E': ['C12'], 'C11-F': ['C14'], 'C12-E': ['C14'], 'C16-F': ['C14'], 'C15-E': ['C14'], 'C13-E': ['C15'], 'C06-J': ['C16'], 'C14-I': ['C16'], 'C11-J': ['C14'], 'C16-I': ['C14'], 'C16-K': ['C06'], 'C01-L': ['C14'], 'C04-L': ['C15'], 'C15-K': ['C04']}
+         'C10-A': ['C03'], 'C10-B': ['C04'], 'C09-A': ['C05'], 'C04-B': ['C15'], 'C19-B': ['C08'], 'HIST-D03': ['C14'], 'HIST-D01': ['C06'], 'HIST-D09b': ['C20'], 'C20-B': ['C15', 'C18'], 'C01-E': ['C15', 'C14'], 'C06-F': ['C15'], 'C07-F': ['C14'], 'C09-E': ['C12'], 'C11-F': ['C14'], 'C12-E': ['C14'], 'C16-F': ['C14'], 'C15-E': ['C14'], 'C13-E': ['C15'], 'C06-J': ['C16'], 'C14-I': ['C16'], 'C11-J': ['C14'], 'C16-I': ['C14'], 'C16-K': ['C06'], 'C01-L': ['C14'], 'C04-L': ['C15'], 'C15-K': ['C04'], 'C01-P': ['C15', 'C20'], 'C09-O': ['C07'], 'HIST-D19': ['C03', 'C05']}
 
 
 def one(job):
